@@ -108,6 +108,14 @@ def c_into(m, st, f, a):
     return NotImplemented
 
 
+@contract(r'^<.* as TryInto<.*>>::try_into$', 9)
+def c_try_into(m, st, f, a):
+    """std blanket impl: <T as TryInto<U>>::try_into(x) = <U as TryFrom<T>>::try_from(x)"""
+    mm = re.match(r'^<(.*) as TryInto<(.*)>>::try_into$', f)
+    m.call_fn(st, '<%s as TryFrom<%s>>::try_from' % (mm.group(2), mm.group(1)), a, m.cur_ret)
+    return PUSHED
+
+
 @contract(r'^(std::)?(mem|intrinsics)::(transmute|transmute_unchecked)::<')
 def c_transmute(m, st, f, a): return a[0]
 
@@ -966,6 +974,11 @@ class IterDriver(Native):
                 if op in ('filter', 'take_while', 'skip_while', 'inspect'): x = Ref(Cell(self.cur))
                 m.invoke(st, arg, [x], ('native',))
                 return
+            elif op == 'flatten':
+                x = sv(self.cur)
+                if not (isinstance(x, Enum) and x.ty == 'Option'): raise Inconclusive('flatten over %r' % (x,))
+                if disc_of(m, st, x) == 1: self.cur = payload0(x); self.stage += 1
+                else: self.have = False; return
             elif op in ('take', 'skip'):
                 # positional adaptors after closures: count items reaching this stage
                 key = ('n', self.stage)
